@@ -47,6 +47,7 @@ type world struct {
 	br         *bufio.Reader
 	CookieName string
 	Inject     [][2]string // sorted by key, canonical keys distinct
+	Allowed    []string    // UpstreamConfig.AllowedGroups (sorted)
 }
 
 type sessSpec struct {
@@ -63,21 +64,34 @@ type caseSpec struct {
 	Pass    bool        `json:"pass_access_token"`
 	Sess    sessSpec    `json:"session"`
 	Headers [][2]string `json:"headers"` // client header lines in wire order; placeholder stands for the sealed session
-	Note    string      `json:"note,omitempty"`
+	// Due says which deadline of the presented session has passed and how the fake authenticator
+	// answers: "" (nothing due), "refresh" (/refresh 201 NewToken, /profile 200 ProfileGroups),
+	// "validate" (/validate 200, /profile 200 ProfileGroups), "grace-refresh" / "grace-validate"
+	// (/refresh resp. /validate 503 inside the grace period).
+	Due           string   `json:"due,omitempty"`
+	NewToken      string   `json:"new_token,omitempty"`
+	ProfileGroups []string `json:"profile_groups,omitempty"`
+	Note          string   `json:"note,omitempty"`
 }
+
+// allowed groups of the worlds with a group rule (already sorted: the provider sorts this slice
+// in place on some paths)
+var stdAllowed = []string{"eng", "ops", "team"}
 
 func buildWorlds(backend *c.Backend, auth *c.FakeAuth, dir string) []*world {
 	specs := []struct {
-		name   string
-		cookie string
-		inject map[string]string
+		name    string
+		cookie  string
+		inject  map[string]string
+		allowed []string // nil: no group rule (allowed_email_domains "*" instead)
 	}{
-		{"plain", "_sso_proxy", nil},
-		{"inject-custom", "_sso_proxy", map[string]string{"X-Custom-Team": "blue"}},
-		{"inject-user-groups", "_sso_proxy", map[string]string{"X-Forwarded-User": "injected-user", "x-forwarded-groups": "inj-g"}},
-		{"inject-token-email", "_sso_proxy", map[string]string{"X-Forwarded-Access-Token": "injected-token", "X-FORWARDED-EMAIL": "inj@x"}},
-		{"cookie-sid", "sid", nil},
-		{"inject-cookie", "_sso_proxy", map[string]string{"Cookie": "inj=1; _sso_proxy=fake"}},
+		{"plain", "_sso_proxy", nil, stdAllowed},
+		{"inject-custom", "_sso_proxy", map[string]string{"X-Custom-Team": "blue"}, stdAllowed},
+		{"inject-user-groups", "_sso_proxy", map[string]string{"X-Forwarded-User": "injected-user", "x-forwarded-groups": "inj-g"}, stdAllowed},
+		{"inject-token-email", "_sso_proxy", map[string]string{"X-Forwarded-Access-Token": "injected-token", "X-FORWARDED-EMAIL": "inj@x"}, stdAllowed},
+		{"cookie-sid", "sid", nil, stdAllowed},
+		{"inject-cookie", "_sso_proxy", map[string]string{"Cookie": "inj=1; _sso_proxy=fake"}, stdAllowed},
+		{"no-group-rule", "_sso_proxy", nil, nil},
 	}
 	var ws []*world
 	for _, s := range specs {
@@ -97,10 +111,14 @@ func buildWorlds(backend *c.Backend, auth *c.FakeAuth, dir string) []*world {
 				fmt.Fprintf(&b, "        %q: %q\n", kv[0], kv[1])
 			}
 		}
-		pw, err := c.BuildProxy(c.ProxyOpts{YAML: b.String(), CookieName: s.cookie, Valid: time.Hour, Grace: 0,
-			DefaultGroups: []string{"team"}, Dir: dir}, auth)
+		opts := c.ProxyOpts{YAML: b.String(), CookieName: s.cookie, Valid: time.Hour, Grace: time.Hour,
+			DefaultGroups: s.allowed, Dir: dir}
+		if s.allowed == nil {
+			opts.DefaultDomains = []string{"*"}
+		}
+		pw, err := c.BuildProxy(opts, auth)
 		c.Must(err)
-		w := &world{Name: s.name, pw: pw, CookieName: s.cookie, Inject: inj}
+		w := &world{Name: s.name, pw: pw, CookieName: s.cookie, Inject: inj, Allowed: s.allowed}
 		w.srv = httptest.NewServer(pw.Handler)
 		ws = append(ws, w)
 	}
@@ -115,35 +133,36 @@ func (w *world) reset() {
 }
 
 // send writes raw request bytes to the proxy's server and reads one response.
-func (w *world) send(raw string, closeAfter bool) (int, error) {
+func (w *world) send(raw string, closeAfter bool) (int, []*http.Cookie, error) {
 	if w.conn == nil {
 		conn, err := net.Dial("tcp", strings.TrimPrefix(w.srv.URL, "http://"))
 		if err != nil {
-			return 0, err
+			return 0, nil, err
 		}
 		w.conn, w.br = conn, bufio.NewReader(conn)
 	}
 	w.conn.SetDeadline(time.Now().Add(20 * time.Second))
 	if _, err := io.WriteString(w.conn, raw); err != nil {
 		w.reset()
-		return 0, err
+		return 0, nil, err
 	}
 	resp, err := http.ReadResponse(w.br, nil)
 	if err != nil {
 		w.reset()
-		return 0, err
+		return 0, nil, err
 	}
 	io.Copy(ioutil.Discard, resp.Body)
 	resp.Body.Close()
 	if resp.Close || closeAfter {
 		w.reset()
 	}
-	return resp.StatusCode, nil
+	return resp.StatusCode, resp.Cookies(), nil
 }
 
 type observation struct {
 	Forwarded   bool        `json:"forwarded"`
 	Status      int         `json:"status"`
+	Saved       *sessSpec   `json:"resaved_session"` // Set-Cookie of this response opened with the proxy's key
 	User        []string    `json:"x_forwarded_user"`
 	Email       []string    `json:"x_forwarded_email"`
 	Groups      []string    `json:"x_forwarded_groups"`
@@ -167,11 +186,30 @@ func run(ws []*world, backend *c.Backend, cs caseSpec, r *c.Rng) c.Case {
 	proxy.VerifC03SetFlags(&w.pw.Cfg, cs.Pass, cs.Mode == "preflight")
 	sealed := placeholder
 	if cs.Mode == "auth" {
+		// every deadline comparison has a margin of minutes: "due" = 5 min in the past, else 10 h ahead
+		refreshDl, validDl := time.Now().Add(10*time.Hour), time.Now().Add(10*time.Hour)
+		script := c.AuthScript{
+			Refresh:  c.Answer{Status: 201, Body: c.JSONBody(map[string]interface{}{"access_token": cs.NewToken, "expires_in": 3600})},
+			Validate: c.Answer{Status: 200, Body: "{}"},
+			Profile:  c.Answer{Status: 200, Body: c.JSONBody(map[string]interface{}{"email": cs.Sess.Email, "groups": cs.ProfileGroups})},
+		}
+		switch cs.Due {
+		case "refresh":
+			refreshDl = time.Now().Add(-5 * time.Minute)
+		case "validate":
+			validDl = time.Now().Add(-5 * time.Minute)
+		case "grace-refresh":
+			refreshDl = time.Now().Add(-5 * time.Minute)
+			script.Refresh = c.Answer{Status: 503, Body: "unavailable"}
+		case "grace-validate":
+			validDl = time.Now().Add(-5 * time.Minute)
+			script.Validate = c.Answer{Status: 503, Body: "unavailable"}
+		}
+		w.pw.Auth.Set(script)
 		sealed = w.pw.Seal(&sessions.SessionState{
 			ProviderSlug: "google", AccessToken: cs.Sess.Token, RefreshToken: "rt",
-			RefreshDeadline: time.Now().Add(10 * time.Hour), LifetimeDeadline: time.Now().Add(100 * time.Hour),
-			ValidDeadline: time.Now().Add(10 * time.Hour),
-			Email:         cs.Sess.Email, User: cs.Sess.User, Groups: cs.Sess.Groups, AuthorizedUpstream: host,
+			RefreshDeadline: refreshDl, LifetimeDeadline: time.Now().Add(100 * time.Hour), ValidDeadline: validDl,
+			Email: cs.Sess.Email, User: cs.Sess.User, Groups: cs.Sess.Groups, AuthorizedUpstream: host,
 		})
 	}
 	method, path := "GET", "/private/page?x=1"
@@ -193,15 +231,25 @@ func run(ws []*world, backend *c.Backend, cs caseSpec, r *c.Rng) c.Case {
 	}
 	b.WriteString("\r\n")
 	backend.Take()
-	status, err := w.send(b.String(), closeAfter)
+	status, setCookies, err := w.send(b.String(), closeAfter)
 	if err != nil { // the harness's own socket: retry once on a fresh connection
 		backend.Take()
-		status, err = w.send(b.String(), closeAfter)
+		status, setCookies, err = w.send(b.String(), closeAfter)
 		c.Must(err)
 	}
 	seen := backend.Take()
 	var o observation
 	o.Status = status
+	for _, ck := range setCookies {
+		if ck.Name != w.CookieName || ck.Value == "" {
+			continue
+		}
+		if s := w.pw.Open(ck.Value); s != nil {
+			o.Saved = &sessSpec{User: s.User, Email: s.Email, Groups: s.Groups, Token: s.AccessToken}
+		} else {
+			o.Saved = &sessSpec{User: "<set-cookie does not open>"}
+		}
+	}
 	o.Forwarded = len(seen) == 1
 	if len(seen) >= 1 {
 		h := seen[0].Header
@@ -235,7 +283,7 @@ func probe(ws []*world, backend *c.Backend, r *c.Rng) {
 	w := ws[0]
 	proxy.VerifC03SetFlags(&w.pw.Cfg, false, false)
 	backend.Take()
-	_, err := w.send("GET /public/probe HTTP/1.1\r\nHost: "+host+"\r\nX-Forwarded-User: probe\r\n\r\n", false)
+	_, _, err := w.send("GET /public/probe HTTP/1.1\r\nHost: "+host+"\r\nX-Forwarded-User: probe\r\n\r\n", false)
 	c.Must(err)
 	seen := backend.Take()
 	if len(seen) != 1 {
@@ -244,15 +292,33 @@ func probe(ws []*world, backend *c.Backend, r *c.Rng) {
 	scrubs = len(seen[0].Header["X-Forwarded-User"]) == 0
 }
 
+func coqSession(s sessSpec) string {
+	return fmt.Sprintf("{| s_user := %s; s_email := %s; s_groups := %s; s_token := %s |}",
+		c.Str(s.User), c.Str(s.Email), c.Strs(s.Groups), c.Str(s.Token))
+}
+
 func coqCase(w *world, cs caseSpec, o observation) string {
 	cfg := fmt.Sprintf("{| cookie_name := %s; pass_access_token := %s; inject := %s |}",
 		c.Str(w.CookieName), c.Bool(cs.Pass), pairs(w.Inject))
 	mode := "SkipAuth"
+	due := "NotDue"
 	if cs.Mode == "auth" {
-		mode = fmt.Sprintf("(Authenticated {| s_user := %s; s_email := %s; s_groups := %s; s_token := %s |})",
-			c.Str(cs.Sess.User), c.Str(cs.Sess.Email), c.Strs(cs.Sess.Groups), c.Str(cs.Sess.Token))
+		mode = "(Authenticated " + coqSession(cs.Sess) + ")"
+		switch cs.Due {
+		case "refresh":
+			due = fmt.Sprintf("(RefreshDue %s %s)", c.Str(cs.NewToken), c.Strs(cs.ProfileGroups))
+		case "validate":
+			due = fmt.Sprintf("(ValidateDue %s)", c.Strs(cs.ProfileGroups))
+		case "grace-refresh", "grace-validate":
+			due = "GraceFallback"
+		}
 	}
-	return fmt.Sprintf("Case %s %s %s %s %s %s %s %s %s %s %s", c.Bool(scrubs), cfg, mode, pairs(cs.Headers), c.Bool(o.Forwarded),
+	saved := "None"
+	if o.Saved != nil {
+		saved = "(Some " + coqSession(*o.Saved) + ")"
+	}
+	return fmt.Sprintf("Case %s %s %s %s %s %s %s %s %s %s %s %s %s %s", c.Bool(scrubs), cfg, mode, c.Strs(w.Allowed), due,
+		pairs(cs.Headers), c.Bool(o.Forwarded), saved,
 		c.Strs(o.User), c.Strs(o.Email), c.Strs(o.Groups), c.Strs(o.Token), c.Strs(o.CookieLines), pairs(o.Cookies))
 }
 
@@ -286,9 +352,27 @@ var spoofValues = []string{"evil", "", "admin@corp.test", "root, wheel", "a b", 
 func genSession(r *c.Rng) sessSpec {
 	users := []string{"bob", "", "Bob Smith", "böb", "evil", "a,b"}
 	emails := []string{"bob@corp.test", "", "x@y", "Ünï@corp.test", "bob@corp.test"}
-	groups := [][]string{{}, {"g1"}, {"g1", "g2"}, {"a b"}, {""}, {"x", ""}, {"eng", "ops", "sec"}}
+	groups := [][]string{{}, {"g1"}, {"g1", "g2"}, {"a b"}, {""}, {"x", ""}, {"eng", "ops", "sec"}, {"team"}, {"team", "eng"}, {"ops", "team", "eng"}}
 	tokens := []string{"", "tok-123", "ya29.A0_-/+==", "t"}
 	return sessSpec{User: r.Pick(users), Email: r.Pick(emails), Groups: groups[r.Intn(len(groups))], Token: r.Pick(tokens)}
+}
+
+// the authenticator's /profile answer: always at least one allowed group (the request must be
+// served), plus foreign groups, repeats, any order
+func genProfileGroups(r *c.Rng, allowed []string) []string {
+	pool := []string{"eng", "ops", "team", "other", "Eng", "x y", "", "sec"}
+	var gs []string
+	for i, n := 0, r.Intn(5); i < n; i++ {
+		gs = append(gs, r.Pick(pool))
+	}
+	if len(allowed) > 0 {
+		gs = append(gs, r.Pick(allowed))
+	}
+	r.Shuffle(len(gs), func(i, j int) { gs[i], gs[j] = gs[j], gs[i] })
+	if gs == nil {
+		gs = []string{}
+	}
+	return gs
 }
 
 // cookie parts that never parse as a cookie named cn (so they may precede the session cookie)
@@ -396,6 +480,26 @@ func genCase(r *c.Rng, ws []*world) caseSpec {
 	}
 	cs.Pass = r.Chance(0.5)
 	cs.Sess = genSession(r)
+	w := ws[cs.World]
+	if w.Allowed == nil && cs.Sess.Email == "" {
+		cs.Sess.Email = "x@y" // the "*" domain rule refuses an empty e-mail on every request
+	}
+	if cs.Mode == "auth" {
+		switch x := r.Intn(20); {
+		case x < 6:
+			cs.Due = "refresh"
+		case x < 10:
+			cs.Due = "validate"
+		case x < 11:
+			cs.Due = "grace-refresh"
+		case x < 12:
+			cs.Due = "grace-validate"
+		}
+		if cs.Due == "refresh" || cs.Due == "validate" {
+			cs.NewToken = r.Pick([]string{"rotated-1", "", "tok-123", "ya29.NEW_-/+=="})
+			cs.ProfileGroups = genProfileGroups(r, w.Allowed)
+		}
+	}
 	cn := ws[cs.World].CookieName
 	var hs [][2]string
 	// identity headers, any spelling, 0-3 values
@@ -509,6 +613,25 @@ func corpus() []caseSpec {
 		{World: 0, Mode: "auth", Sess: sessSpec{User: "", Email: "", Groups: nil, Token: ""}, Headers: [][2]string{ck(sc)}},
 		{World: 0, Mode: "auth", Sess: s, Headers: [][2]string{ck(sc), {"Connection", "close"}}},
 		{World: 0, Mode: "auth", Sess: s, Headers: [][2]string{ck(sc), {"Connection", "X-Forwarded User, x-forwarded-groups"}}},
+		// a refresh / revalidation is due and the authenticator answers changed groups and a rotated token
+		{World: 0, Mode: "auth", Pass: true, Sess: sessSpec{User: "bob", Email: "bob@corp.test", Groups: []string{"team", "eng"}, Token: "old-token"},
+			Due: "refresh", NewToken: "rotated-1", ProfileGroups: []string{"team", "other"}, Note: "removed from eng at refresh",
+			Headers: [][2]string{ck(sc)}},
+		{World: 0, Mode: "auth", Pass: false, Sess: sessSpec{User: "bob", Email: "bob@corp.test", Groups: []string{"team", "eng"}, Token: "old-token"},
+			Due: "refresh", NewToken: "rotated-1", ProfileGroups: []string{"ops", "team", "ops"}, Headers: [][2]string{ck(sc), {"X-Forwarded-Groups", "root"}}},
+		{World: 0, Mode: "auth", Pass: true, Sess: sessSpec{User: "bob", Email: "bob@corp.test", Groups: []string{"team", "eng"}, Token: "old-token"},
+			Due: "refresh", NewToken: "", ProfileGroups: []string{"eng"}, Note: "rotated token empty", Headers: [][2]string{ck(sc)}},
+		{World: 0, Mode: "auth", Pass: true, Sess: sessSpec{User: "bob", Email: "bob@corp.test", Groups: []string{"team", "eng"}, Token: "old-token"},
+			Due: "validate", ProfileGroups: []string{"other", "eng"}, Note: "removed from team at revalidation", Headers: [][2]string{ck(sc)}},
+		{World: 0, Mode: "auth", Pass: true, Sess: sessSpec{User: "bob", Email: "bob@corp.test", Groups: []string{"team", "eng"}, Token: "old-token"},
+			Due: "grace-refresh", Headers: [][2]string{ck(sc)}},
+		{World: 0, Mode: "auth", Pass: true, Sess: sessSpec{User: "bob", Email: "bob@corp.test", Groups: []string{"team", "eng"}, Token: "old-token"},
+			Due: "grace-validate", Headers: [][2]string{ck(sc)}},
+		{World: 6, Mode: "auth", Pass: true, Sess: sessSpec{User: "bob", Email: "bob@corp.test", Groups: []string{"team", "eng"}, Token: "old-token"},
+			Due: "refresh", NewToken: "rotated-2", ProfileGroups: []string{"team"}, Note: "no group rule: refresh empties the group list",
+			Headers: [][2]string{ck(sc)}},
+		{World: 2, Mode: "auth", Pass: true, Sess: sessSpec{User: "bob", Email: "bob@corp.test", Groups: []string{"team"}, Token: "old-token"},
+			Due: "refresh", NewToken: "rotated-3", ProfileGroups: []string{"eng", "team"}, Headers: [][2]string{ck(sc), {"Connection", "close"}}},
 	}
 }
 
